@@ -378,6 +378,10 @@ func (a *Authority) renewSSH(ctx context.Context, oldCert *ssh.Certificate) (*ss
 	if durErr != nil {
 		return nil, prov, errs.BadRequestErr(durErr, "cannot renew the certificate")
 	}
+	if duration <= backdate {
+		// The new certificate would already be expired when it is issued.
+		return nil, prov, errs.BadRequest("cannot renew a certificate whose validity period is not longer than the backdate")
+	}
 	now := time.Now()
 	va := now.Add(-1 * backdate)
 	vb := now.Add(duration - backdate)
@@ -460,6 +464,10 @@ func (a *Authority) rekeySSH(ctx context.Context, oldCert *ssh.Certificate, pub 
 	duration, durErr := sshCertificateDuration(oldCert)
 	if durErr != nil {
 		return nil, prov, errs.BadRequestErr(durErr, "cannot rekey the certificate")
+	}
+	if duration <= backdate {
+		// The new certificate would already be expired when it is issued.
+		return nil, prov, errs.BadRequest("cannot rekey a certificate whose validity period is not longer than the backdate")
 	}
 	now := time.Now()
 	va := now.Add(-1 * backdate)
